@@ -738,6 +738,20 @@ static void run_case(const vh::Case& c)
       chunk_header<1024, 8, false> h(std::stoull(w.at(1)), unhex(w.at(2)));
       out(hex(h.to_string()));
     }
+    else if (op == "chunkhdr-set")
+    {
+      // chunkhdr-set <size> <ext> [<size0> <ext0>]: a default-constructed header (or one built for size0/ext0 and then
+      // clear()ed) brought to (size, ext) with the setters — same output as the constructor form `chunkhdr`
+      chunk_header<1024, 8, false> h;
+      if (w.size() > 4)
+      {
+        h = chunk_header<1024, 8, false>(std::stoull(w.at(3)), unhex(w.at(4)));
+        h.clear();
+      }
+      h.set_size(std::stoull(w.at(1)));
+      h.set_extension(unhex(w.at(2)));
+      out(hex(h.to_string()));
+    }
     else if (op == "lastchunk")
     {
       last_chunk lc(unhex(w.at(1)), unhex(w.at(2)));
